@@ -4,7 +4,7 @@
 
 use std::str::FromStr;
 
-use anyhow::Result;
+use anyhow::{anyhow, Result};
 use clap::{Arg, ArgMatches};
 
 use crate::{
@@ -50,6 +50,10 @@ pub(super) fn dispatch(repo: &gix::Repository, matches: &ArgMatches) -> Result<(
             .expect("valid partial reference name");
         &generated_branchname
     };
+
+    if new_branchname.as_ref() as &str == current_branchname.as_ref() as &str {
+        return Err(anyhow!("cannot clone branch `{current_branchname}` onto itself"));
+    }
 
     let stupid = repo.stupid();
     let statuses = stupid.statuses(None)?;
